@@ -17,7 +17,8 @@ def impl_outcome(run_reply, E):
     """-> ('ok',None) | ('returned', valuestr) | ('error', NAME) , interrupted?, output bytes, steps"""
     head, pos, kw = rfields(run_reply)
     out = unhx(kw.get("out", "-"))
-    intr = kw.get("intr") == "1"
+    # an output larger than the capture limit (1 MiB) was cut by the harness: such a run cannot be compared (treated like an interrupted one)
+    intr = kw.get("intr") == "1" or kw.get("trunc") == "1"
     steps = int(kw.get("steps", "0"))
     if head == "ok":
         rv = kw.get("retv", kw.get("returned", "none"))
@@ -100,7 +101,7 @@ def model_env_check(model_it, d):
         if s is None:
             continue
         val = s["value"]
-        if v is None:
+        if v is None or v is ml.NOTHING:
             if not val.startswith("Z"): bad.append("%s: model null, interpreter %s" % (k, val[:40]))
         elif isinstance(v, bool):
             if val != ("b:1" if v else "b:0"): bad.append("%s: model %s, interpreter %s" % (k, v, val[:40]))
